@@ -27,7 +27,7 @@ use std::pin::Pin;
 use std::sync::{Arc, Mutex};
 use std::task::{Context, Poll};
 use tokio_stream::Stream;
-use tonic::codec::{BufferSettings, Codec, DecodeBuf, Decoder, EncodeBuf, Encoder};
+use tonic::codec::{BufferSettings, Codec, CompressionEncoding, DecodeBuf, Decoder, EncodeBody, EncodeBuf, Encoder};
 use tonic::metadata::{MetadataKey, MetadataMap, MetadataValue};
 use tonic::{Code, Request, Response, Status, Streaming};
 use vcommon::body::{spin, Ev, ScriptBody};
@@ -38,7 +38,10 @@ mod h2run;
 const IMPORTS: &str =
     "From Verif Require Import Lib.Bytes Lib.Obs Lib.HeaderMap Model.Status Model.Decoder Model.Codec Model.Call.";
 pub const RESERVED: [&str; 6] = ["te", "user-agent", "content-type", "grpc-message", "grpc-message-type", "grpc-status"];
-/// header names that are not reserved but that tonic itself interprets: outside the oracle's domain
+/// header names that are not reserved but that tonic itself interprets (audit M1).  The
+/// theorems of Props/C02.v have exactly two premises about them - no `grpc-encoding` entry in
+/// any metadata, no `grpc-status-details-bin` entry in STATUS metadata - and the oracle's domain
+/// (`in_domain`) is exactly that; the other names are ordinary metadata for the oracle.
 const PROTOCOL: [&str; 4] = ["grpc-encoding", "grpc-accept-encoding", "grpc-timeout", "grpc-status-details-bin"];
 const MSG_PREFIX: &str = "Error deserializing status message header: ";
 const DET_PREFIX: &str = "Error deserializing status details header: ";
@@ -159,8 +162,90 @@ pub enum Handler {
     Ok(Md, Vec<Item>),
     Err(StSpec),
 }
+#[derive(Clone, Copy, Debug, PartialEq, Eq)]
+pub enum Enc {
+    Gzip,
+    Deflate,
+    Zstd,
+}
+pub const ENCS: [Enc; 3] = [Enc::Gzip, Enc::Deflate, Enc::Zstd];
+impl Enc {
+    pub fn num(self) -> u8 {
+        match self {
+            Enc::Gzip => 0,
+            Enc::Deflate => 1,
+            Enc::Zstd => 2,
+        }
+    }
+    pub fn from_num(n: u64) -> Enc {
+        ENCS[(n % 3) as usize]
+    }
+    pub fn tonic(self) -> CompressionEncoding {
+        match self {
+            Enc::Gzip => CompressionEncoding::Gzip,
+            Enc::Deflate => CompressionEncoding::Deflate,
+            Enc::Zstd => CompressionEncoding::Zstd,
+        }
+    }
+}
+/// the configuration of a client::Grpc / server::Grpc
+#[derive(Clone, Debug, Default)]
+pub struct SideCfg {
+    pub max_enc: Option<usize>,
+    pub max_dec: Option<usize>,
+    /// client: send_compressed
+    pub send: Option<Enc>,
+    /// accept_compressed, in call order
+    pub accept: Vec<Enc>,
+    /// server: send_compressed, in call order
+    pub send_set: Vec<Enc>,
+    /// server: limits set through apply_max_message_size_config instead of the two setters
+    pub via_apply: bool,
+}
+impl SideCfg {
+    fn coq(&self) -> String {
+        format!(
+            "(mk_side {} {} {} {} {})",
+            coq_opt(&self.max_enc, |n| n.to_string()),
+            coq_opt(&self.max_dec, |n| n.to_string()),
+            coq_opt(&self.send, |e| e.num().to_string()),
+            coq_list(&self.accept, |e| e.num().to_string()),
+            coq_list(&self.send_set, |e| e.num().to_string())
+        )
+    }
+    fn json(&self) -> Value {
+        json!({"max_enc": self.max_enc, "max_dec": self.max_dec, "send": self.send.map(|e| e.num()),
+               "accept": self.accept.iter().map(|e| e.num()).collect::<Vec<_>>(),
+               "send_set": self.send_set.iter().map(|e| e.num()).collect::<Vec<_>>(), "via_apply": self.via_apply})
+    }
+    fn from_json(v: &Value) -> SideCfg {
+        if v.is_null() {
+            return SideCfg::default();
+        }
+        let es = |x: &Value| x.as_array().map(|a| a.iter().map(|y| Enc::from_num(y.as_u64().unwrap())).collect::<Vec<_>>()).unwrap_or_default();
+        SideCfg {
+            max_enc: v["max_enc"].as_u64().map(|x| x as usize),
+            max_dec: v["max_dec"].as_u64().map(|x| x as usize),
+            send: v["send"].as_u64().map(Enc::from_num),
+            accept: es(&v["accept"]),
+            send_set: es(&v["send_set"]),
+            via_apply: v["via_apply"].as_bool().unwrap_or(false),
+        }
+    }
+    pub fn is_plain(&self) -> bool {
+        self.send.is_none() && self.accept.is_empty() && self.send_set.is_empty()
+    }
+    pub fn has_limits(&self) -> bool {
+        self.max_enc.is_some() || self.max_dec.is_some()
+    }
+}
 #[derive(Clone, Debug)]
 pub struct CallCase {
+    pub cl: SideCfg,
+    pub sv: SideCfg,
+    /// how often the handler of a streaming-request shape calls message() before it answers
+    /// (None = until the request stream ends)
+    pub reads: Option<usize>,
     /// 0 unary, 1 client streaming, 2 server streaming, 3 bidirectional
     pub shape: u8,
     pub md: Md,
@@ -180,7 +265,8 @@ impl CallCase {
         self.shape == 2 || self.shape == 3
     }
     fn json(&self) -> Value {
-        json!({"shape": self.shape, "md": md_json(&self.md), "req": self.req.iter().map(|i| i.json()).collect::<Vec<_>>(),
+        json!({"cl": self.cl.json(), "sv": self.sv.json(), "reads": self.reads,
+               "shape": self.shape, "md": md_json(&self.md), "req": self.req.iter().map(|i| i.json()).collect::<Vec<_>>(),
                "qcuts": self.qcuts, "qpend": self.qpend,
                "handler": match &self.handler {
                    Handler::Ok(md, items) => json!({"ok": {"md": md_json(md), "items": items.iter().map(|i| i.json()).collect::<Vec<_>>()}}),
@@ -192,6 +278,9 @@ impl CallCase {
         let us = |x: &Value| x.as_array().unwrap().iter().map(|y| y.as_u64().unwrap() as usize).collect::<Vec<_>>();
         let h = &v["handler"];
         CallCase {
+            cl: SideCfg::from_json(&v["cl"]),
+            sv: SideCfg::from_json(&v["sv"]),
+            reads: v["reads"].as_u64().map(|x| x as usize),
             shape: v["shape"].as_u64().unwrap() as u8,
             md: md_from_json(&v["md"]),
             req: v["req"].as_array().unwrap().iter().map(Item::from_json).collect(),
@@ -243,6 +332,8 @@ impl Stream for RespStream {
 pub enum End {
     Ok,
     Err(Status),
+    /// the handler stopped calling message()
+    Unread,
 }
 #[derive(Clone, Debug)]
 pub enum Seen {
@@ -257,7 +348,11 @@ pub enum ClientResult {
     Stream(HeaderMap, Vec<Vec<u8>>, End),
 }
 fn canon_msg(m: &str) -> Vec<u8> {
-    for p in [UNSUPPORTED_PREFIX, MSG_PREFIX, DET_PREFIX, HTTP_PREFIX] {
+    if m.starts_with("Error, decoded message length too large: ") {
+        // the decoder model carries only the code of the statuses the decoder makes itself
+        return vec![];
+    }
+    for p in [UNSUPPORTED_PREFIX, "h2 protocol error: ", MSG_PREFIX, DET_PREFIX, HTTP_PREFIX] {
         if m.starts_with(p) {
             return p.as_bytes().to_vec();
         }
@@ -271,6 +366,7 @@ fn end_tr(e: &End) -> Tr {
     match e {
         End::Ok => Tr::L(vec![Tr::n(0u8)]),
         End::Err(s) => Tr::L(vec![Tr::n(1u8), status_tr(s)]),
+        End::Unread => Tr::L(vec![Tr::n(2u8)]),
     }
 }
 fn result_tr(r: &ClientResult) -> Tr {
@@ -293,6 +389,8 @@ fn seen_tr(s: &Seen, rejected_code: Option<u32>) -> Tr {
 pub struct H {
     pub handler: Arc<Handler>,
     pub seen: Arc<Mutex<Seen>>,
+    pub reads: Option<usize>,
+    pub sv: Arc<SideCfg>,
 }
 fn unary_answer(h: &Handler) -> Result<Response<Vec<u8>>, Status> {
     match h {
@@ -315,9 +413,13 @@ fn stream_answer(h: &Handler) -> Result<Response<RespStream>, Status> {
         }
     }
 }
-async fn drain_request(mut s: Streaming<Vec<u8>>) -> (Vec<Vec<u8>>, End) {
+async fn drain_request(mut s: Streaming<Vec<u8>>, reads: Option<usize>) -> (Vec<Vec<u8>>, End) {
     let mut ms = vec![];
     loop {
+        if reads == Some(ms.len()) {
+            // answer now; the rest of the request stream is dropped unread
+            return (ms, End::Unread);
+        }
         match s.message().await {
             Ok(Some(m)) => ms.push(m),
             Ok(None) => return (ms, End::Ok),
@@ -365,7 +467,7 @@ impl tower_service::Service<Request<Streaming<Vec<u8>>>> for CStreamH {
         let h = self.0.clone();
         Box::pin(async move {
             let (md, _, s) = req.into_parts();
-            let (ms, e) = drain_request(s).await;
+            let (ms, e) = drain_request(s, h.reads).await;
             *h.seen.lock().unwrap() = Seen::Stream(md.into_headers(), ms, e);
             unary_answer(&h.handler)
         })
@@ -383,7 +485,7 @@ impl tower_service::Service<Request<Streaming<Vec<u8>>>> for BidiH {
         let h = self.0.clone();
         Box::pin(async move {
             let (md, _, s) = req.into_parts();
-            let (ms, e) = drain_request(s).await;
+            let (ms, e) = drain_request(s, h.reads).await;
             *h.seen.lock().unwrap() = Seen::Stream(md.into_headers(), ms, e);
             stream_answer(&h.handler)
         })
@@ -396,6 +498,23 @@ where
     B::Error: Into<Box<dyn std::error::Error + Send + Sync>> + Send,
 {
     let mut grpc = tonic::server::Grpc::new(RawCodec);
+    let sv = h.sv.clone();
+    for e in &sv.accept {
+        grpc = grpc.accept_compressed(e.tonic());
+    }
+    for e in &sv.send_set {
+        grpc = grpc.send_compressed(e.tonic());
+    }
+    if sv.via_apply {
+        grpc = grpc.apply_max_message_size_config(sv.max_dec, sv.max_enc);
+    } else {
+        if let Some(l) = sv.max_dec {
+            grpc = grpc.max_decoding_message_size(l);
+        }
+        if let Some(l) = sv.max_enc {
+            grpc = grpc.max_encoding_message_size(l);
+        }
+    }
     match shape {
         0 => grpc.unary(UnaryH(h), req).await,
         1 => grpc.client_streaming(CStreamH(h), req).await,
@@ -419,6 +538,11 @@ where
     let mut body = Box::pin(body);
     let mut out = vec![];
     loop {
+        // like hyper: a body that reports end-of-stream is not polled again (whatever it would
+        // still have produced - trailers! - is lost)
+        if body.is_end_stream() {
+            return out;
+        }
         match std::future::poll_fn(|cx| body.as_mut().poll_frame(cx)).await {
             None => return out,
             Some(Err(e)) => {
@@ -544,6 +668,9 @@ pub fn result_tr_pub(r: &ClientResult) -> Tr {
 pub fn seen_tr_pub(s: &Seen) -> Tr {
     seen_tr(s, None)
 }
+pub fn seen_tr_code(s: &Seen, code: Option<u32>) -> Tr {
+    seen_tr(s, code)
+}
 pub async fn client_side_origin<T>(c: &CallCase, svc: T, origin: Option<http::Uri>) -> ClientResult
 where
     T: tonic::client::GrpcService<tonic::body::Body>,
@@ -554,6 +681,18 @@ where
         Some(o) => tonic::client::Grpc::with_origin(svc, o),
         None => tonic::client::Grpc::new(svc),
     };
+    if let Some(e) = c.cl.send {
+        client = client.send_compressed(e.tonic());
+    }
+    for e in &c.cl.accept {
+        client = client.accept_compressed(e.tonic());
+    }
+    if let Some(l) = c.cl.max_dec {
+        client = client.max_decoding_message_size(l);
+    }
+    if let Some(l) = c.cl.max_enc {
+        client = client.max_encoding_message_size(l);
+    }
     let path = http::uri::PathAndQuery::from_static("/verif.Call/Method");
     let md = request_md(c);
     match c.shape {
@@ -637,28 +776,53 @@ fn status_matches(got: &Status, want: &StSpec) -> Option<String> {
     }
     md_contains(&got.metadata().clone().into_headers(), &want.md, "error status")
 }
-/// does the case lie in the property's domain (see checks/C02.json "assumptions")
+/// does the case lie in the domain of the theorems (Props/C02.v premises, checks/C02.json):
+/// no grpc-encoding entry in any metadata, no grpc-status-details-bin entry in status
+/// metadata, error statuses have a code other than OK
 pub fn in_domain(c: &CallCase) -> bool {
-    let proto = |md: &Md| md.iter().any(|(k, _)| PROTOCOL.contains(&k.as_str()));
-    let st_ok = |s: &StSpec| s.code != 0 && !proto(&s.md);
-    if proto(&c.md) {
+    let has = |md: &Md, k: &str| md.iter().any(|(x, _)| x == k);
+    let st_ok = |s: &StSpec| s.code != 0 && !has(&s.md, "grpc-encoding") && !has(&s.md, "grpc-status-details-bin");
+    if has(&c.md, "grpc-encoding") {
         return false;
     }
     match &c.handler {
         Handler::Err(s) => st_ok(s),
-        Handler::Ok(md, items) => !proto(md) && items.iter().all(|i| if let Item::Err(s) = i { st_ok(s) } else { true }),
+        Handler::Ok(md, items) => !has(md, "grpc-encoding") && items.iter().all(|i| if let Item::Err(s) = i { st_ok(s) } else { true }),
+    }
+}
+const DEFAULT_DEC_LIMIT: usize = 4 * 1024 * 1024;
+/// what the limits allow of the request: (messages that reach the handler's stream, Some(()) if
+/// the stream then fails with OUT_OF_RANGE)
+fn request_allowed(c: &CallCase) -> (Vec<Vec<u8>>, bool) {
+    let l = c.cl.max_enc.unwrap_or(usize::MAX).min(c.sv.max_dec.unwrap_or(DEFAULT_DEC_LIMIT));
+    let sent: Vec<Vec<u8>> = c.req.iter().filter_map(|i| if let Item::Ok(m) = i { Some(m.clone()) } else { None }).collect();
+    match sent.iter().position(|m| m.len() > l) {
+        Some(i) => (sent[..i].to_vec(), true),
+        None => (sent, false),
     }
 }
 pub fn judge(c: &CallCase, res: &ClientResult, seen: &Seen) -> Option<String> {
     // ---- the handler's view
-    let sent: Vec<Vec<u8>> = c.req.iter().filter_map(|i| if let Item::Ok(m) = i { Some(m.clone()) } else { None }).collect();
+    let (allowed, refused) = request_allowed(c);
+    let resp_limit = c.sv.max_enc.unwrap_or(usize::MAX).min(c.cl.max_dec.unwrap_or(DEFAULT_DEC_LIMIT));
+    if !c.req_streaming() && refused && allowed.is_empty() {
+        // the only request message is over a limit: OUT_OF_RANGE, the handler is not called
+        if !matches!(seen, Seen::NotCalled) {
+            return Some("the handler was called although the request message is over the limit".into());
+        }
+        return match res {
+            ClientResult::Err(s) if s.code() == Code::OutOfRange => None,
+            ClientResult::Err(s) => Some(format!("request over the limit: the call failed with {:?}, expected OUT_OF_RANGE", s.code())),
+            _ => Some("request over the limit but the call succeeded".into()),
+        };
+    }
     match seen {
         Seen::NotCalled => return Some("the handler was not called".into()),
         Seen::Unary(md, m) => {
             if c.req_streaming() {
                 return Some("handler of a streaming-request shape got a single message".into());
             }
-            if Some(m) != sent.first() {
+            if Some(m) != allowed.first() {
                 return Some("the handler received a different request message".into());
             }
             if let Some(w) = md_contains(md, &c.md, "request") {
@@ -666,11 +830,20 @@ pub fn judge(c: &CallCase, res: &ClientResult, seen: &Seen) -> Option<String> {
             }
         }
         Seen::Stream(md, ms, e) => {
-            if *ms != sent {
-                return Some(format!("the handler received {} request messages (or different ones), the caller sent {}", ms.len(), sent.len()));
+            let j = c.reads.unwrap_or(usize::MAX);
+            let want: Vec<Vec<u8>> = allowed.iter().take(j).cloned().collect();
+            if *ms != want {
+                return Some(format!("the handler received {} request messages (or different ones), expected the first {} of the {} that pass the limits", ms.len(), want.len(), allowed.len()));
             }
-            if let End::Err(s) = e {
-                return Some(format!("the request stream ended with an error at the handler: {:?}", s.code()));
+            let want_end = if j <= allowed.len() { 2 } else if refused { 1 } else { 0 };
+            let ok = match (e, want_end) {
+                (End::Ok, 0) => true,
+                (End::Err(s), 1) => s.code() == Code::OutOfRange,
+                (End::Unread, 2) => true,
+                _ => false,
+            };
+            if !ok {
+                return Some(format!("the request stream ended with {:?} at the handler, expected {}", e, ["a clean end", "Err(OUT_OF_RANGE)", "to be left unread"][want_end]));
             }
             if let Some(w) = md_contains(md, &c.md, "request") {
                 return Some(w);
@@ -686,6 +859,13 @@ pub fn judge(c: &CallCase, res: &ClientResult, seen: &Seen) -> Option<String> {
         Handler::Ok(md, items) => {
             if !c.resp_streaming() {
                 let m = items.iter().find_map(|i| if let Item::Ok(m) = i { Some(m.clone()) } else { None }).unwrap_or_default();
+                if m.len() > resp_limit {
+                    return match res {
+                        ClientResult::Err(s) if s.code() == Code::OutOfRange => None,
+                        ClientResult::Err(s) => Some(format!("response message over the limit: Err({:?}), expected OUT_OF_RANGE", s.code())),
+                        _ => Some("response message over the limit but the call succeeded".into()),
+                    };
+                }
                 return match res {
                     ClientResult::Unary(got_md, got) => {
                         if *got != m {
@@ -700,9 +880,14 @@ pub fn judge(c: &CallCase, res: &ClientResult, seen: &Seen) -> Option<String> {
             }
             let mut want_ms = vec![];
             let mut want_end: Option<&StSpec> = None;
+            let mut over = false;
             for i in items {
                 match i {
                     Item::Pending => {}
+                    Item::Ok(m) if m.len() > resp_limit => {
+                        over = true;
+                        break;
+                    }
                     Item::Ok(m) => want_ms.push(m.clone()),
                     Item::Err(s) => {
                         want_end = Some(s);
@@ -718,7 +903,14 @@ pub fn judge(c: &CallCase, res: &ClientResult, seen: &Seen) -> Option<String> {
                     if let Some(w) = md_contains(got_md, md, "response") {
                         return Some(w);
                     }
+                    if over {
+                        return match e {
+                            End::Err(got) if got.code() == Code::OutOfRange => None,
+                            _ => Some(format!("a response message is over the limit: the stream ended with {:?}, expected Err(OUT_OF_RANGE) after the {} earlier messages", e, want_ms.len())),
+                        };
+                    }
                     match (e, want_end) {
+                        (End::Unread, _) => Some("unexpected end marker".into()),
                         (End::Ok, None) => None,
                         (End::Err(got), Some(s)) => status_matches(got, s),
                         (End::Ok, Some(s)) => Some(format!("the stream ended cleanly although the handler ended it with code {}", s.code)),
@@ -733,23 +925,61 @@ pub fn judge(c: &CallCase, res: &ClientResult, seen: &Seen) -> Option<String> {
 }
 
 // ------------------------------------------------------------------ one case
-fn coq_md(md: &Md) -> String {
+pub fn coq_md(md: &Md) -> String {
     coq_hm(&metadata_of(md).into_headers())
 }
-pub fn model_expr(c: &CallCase, fuel: usize) -> String {
-    let h = match &c.handler {
+/// what tonic writes behind the prefix for `m` under encoding `e` (the compress table of the model)
+pub fn wire_payload(e: Enc, m: &[u8]) -> Vec<u8> {
+    let body = EncodeBody::new_client(RawEnc, tokio_stream::once(Ok::<_, Status>(m.to_vec())), Some(e.tonic()), None);
+    let frames = spin(collect_frames(body), 64).expect("probe");
+    let mut data = vec![];
+    for f in frames {
+        if let Fr::Data(d) = f {
+            data.extend_from_slice(&d);
+        }
+    }
+    data[5..].to_vec()
+}
+pub fn compress_table(c: &CallCase) -> Vec<(Vec<u8>, Vec<u8>)> {
+    let e = c.cl.send.or(c.sv.send_set.first().copied()).or(c.cl.accept.first().copied()).or(c.sv.accept.first().copied());
+    let Some(e) = e else { return vec![] };
+    let mut ms: Vec<Vec<u8>> = c.req.iter().filter_map(|i| if let Item::Ok(m) = i { Some(m.clone()) } else { None }).collect();
+    if let Handler::Ok(_, items) = &c.handler {
+        ms.extend(items.iter().filter_map(|i| if let Item::Ok(m) = i { Some(m.clone()) } else { None }));
+    }
+    let mut t: Vec<(Vec<u8>, Vec<u8>)> = vec![];
+    for m in ms {
+        if !t.iter().any(|(k, _)| *k == m) {
+            let z = wire_payload(e, &m);
+            t.push((m, z));
+        }
+    }
+    t
+}
+pub fn handler_expr(c: &CallCase) -> String {
+    match &c.handler {
         Handler::Ok(md, items) => format!("(inl ({}, {}))", coq_md(md), coq_list(items, |i| i.coq())),
         Handler::Err(s) => format!("(inr {})", s.coq()),
-    };
+    }
+}
+pub fn req_expr(c: &CallCase) -> String {
     let req: Vec<Item> = if c.req_streaming() { c.req.clone() } else { vec![Item::Ok(first_req_msg(c))] };
+    coq_list(&req, |i| i.coq())
+}
+pub fn sides_expr(c: &CallCase) -> String {
+    format!("{} {} {}", coq_pairs(&compress_table(c)), c.cl.coq(), c.sv.coq())
+}
+pub fn model_expr(c: &CallCase, fuel: usize) -> String {
     format!(
-        "obs_call {} {} {} {} {} {} {} {} {}",
+        "obs_call {} {} {} {} {} {} {} {} {} {} {}",
+        sides_expr(c),
         c.shape,
         coq_md(&c.md),
-        coq_list(&req, |i| i.coq()),
+        req_expr(c),
         coq_list(&c.qcuts, |n| n.to_string()),
         coq_list(&c.qpend, |n| n.to_string()),
-        h,
+        coq_opt(&c.reads, |n| n.to_string()),
+        handler_expr(c),
         coq_list(&c.pcuts, |n| n.to_string()),
         coq_list(&c.ppend, |n| n.to_string()),
         fuel
@@ -795,7 +1025,7 @@ pub fn describe(out: &mut Out, fam: &str, c: &CallCase) {
 }
 fn run_case(out: &mut Out, kind: &str, c: &CallCase) {
     let seen = Arc::new(Mutex::new(Seen::NotCalled));
-    let h = H { handler: Arc::new(c.handler.clone()), seen: seen.clone() };
+    let h = H { handler: Arc::new(c.handler.clone()), seen: seen.clone(), reads: c.reads, sv: Arc::new(c.sv.clone()) };
     let resp_status = Arc::new(Mutex::new(None));
     let sizes = Arc::new(Mutex::new((0usize, 0usize)));
     let wire = Wire { case: Arc::new(c.clone()), h, resp_status: resp_status.clone(), sizes: sizes.clone() };
@@ -817,6 +1047,8 @@ fn run_case(out: &mut Out, kind: &str, c: &CallCase) {
     let fam = kind.split('.').next().unwrap_or("call");
     describe(out, fam, c);
     out.hist(&format!("{}.in_oracle_domain", fam), domain);
+    out.hist(&format!("{}.sides", fam), format!("{}{}", if c.cl.is_plain() && c.sv.is_plain() { "no compression" } else { "compression" }, if c.cl.has_limits() || c.sv.has_limits() { ", limits set" } else { "" }));
+    out.hist(&format!("{}.handler_reads", fam), match c.reads { None => "to the end".to_string(), Some(j) => format!("{} then answers", j.min(5)) });
     out.hist(&format!("{}.request_chunks", fam), bucket(cut_chunks(&c.qcuts, &vec![0u8; qn]).len()));
     out.hist(&format!("{}.response_chunks", fam), bucket(cut_chunks(&c.pcuts, &vec![0u8; pn]).len()));
     out.hist(&format!("{}.pending_events", fam), bucket(c.qpend.iter().sum::<usize>() + c.ppend.iter().sum::<usize>()));
@@ -849,7 +1081,7 @@ fn gen_details(r: &mut Rng) -> Vec<u8> {
     } as usize;
     r.bytes(n)
 }
-const KEYS: &[&str] = &["x-a", "x-a", "x-b", "x-trace-id", "authorization", "x-payload-bin", "x-other-bin", "te", "user-agent", "content-type", "grpc-message", "grpc-message-type", "grpc-status", "accept", "x-a"];
+const KEYS: &[&str] = &["x-a", "x-a", "x-b", "x-trace-id", "authorization", "x-payload-bin", "x-other-bin", "te", "user-agent", "content-type", "grpc-message", "grpc-message-type", "grpc-status", "accept", "x-a", "grpc-accept-encoding", "grpc-timeout"];
 pub fn gen_md(r: &mut Rng, protocol_names: bool) -> Md {
     let n = match r.below(6) {
         0 => 0,
@@ -865,6 +1097,8 @@ pub fn gen_md(r: &mut Rng, protocol_names: bool) -> Md {
         let v: Vec<u8> = if k.ends_with("-bin") {
             let len = r.range(0, 7) as usize;
             r.bytes(len)
+        } else if k == "grpc-accept-encoding" {
+            r.pick(&["gzip", "identity,gzip", "zstd, deflate", ""]).as_bytes().to_vec()
         } else if k == "grpc-encoding" {
             r.pick(&["gzip", "identity", "br", ""]).as_bytes().to_vec()
         } else if k == "grpc-timeout" {
@@ -993,7 +1227,167 @@ pub fn gen_case(r: &mut Rng, shape: u8, k: usize, err: Option<(usize, u32)>, ear
     };
     let qcuts = gen_cuts(r, &qlens);
     let pcuts = gen_cuts(r, &plens);
-    CallCase { shape, md: gen_md(r, protocol_names), req, qpend: gen_pend(r, qcuts.len()), qcuts, handler, ppend: gen_pend(r, pcuts.len()), pcuts }
+    CallCase { cl: SideCfg::default(), sv: SideCfg::default(), reads: None, shape, md: gen_md(r, protocol_names), req, qpend: gen_pend(r, qcuts.len()), qcuts, handler, ppend: gen_pend(r, pcuts.len()), pcuts }
+}
+
+// ---- limits configured on client::Grpc / server::Grpc (audit H2, M16, M21)
+/// which limit is set: 0 server max_decoding (request), 1 client max_encoding (request),
+/// 2 server max_encoding (response), 3 client max_decoding (response)
+pub fn gen_limit_case(r: &mut Rng, shape: u8, which: u8, l: usize, len: usize, pos: usize) -> CallCase {
+    let mut c = gen_case(r, shape, 3, None, false, false);
+    let small = |r: &mut Rng| {
+        let n = (r.below(3) as usize).min(l);
+        r.bytes(n)
+    };
+    let big = vec![0x42u8; len];
+    if which <= 1 {
+        // request direction
+        if c.req_streaming() {
+            let mut ms: Vec<Item> = (0..pos).map(|_| Item::Ok(small(r))).collect();
+            ms.push(Item::Ok(big));
+            ms.push(Item::Ok(small(r)));
+            c.req = with_pending_items(r, ms);
+        } else {
+            c.req = vec![Item::Ok(big)];
+        }
+        let qlens: Vec<usize> = c.req.iter().filter_map(|i| if let Item::Ok(m) = i { Some(5 + m.len()) } else { None }).collect();
+        c.qcuts = gen_cuts(r, &qlens);
+        c.qpend = gen_pend(r, c.qcuts.len());
+        // the response must not run into the same limit by accident
+        if let Handler::Ok(_, items) = &mut c.handler {
+            for i in items.iter_mut() {
+                if let Item::Ok(m) = i {
+                    m.truncate(0);
+                }
+            }
+        }
+        if which == 0 {
+            c.sv.max_dec = Some(l);
+        } else {
+            c.cl.max_enc = Some(l);
+        }
+    } else {
+        for i in c.req.iter_mut() {
+            if let Item::Ok(m) = i {
+                m.truncate(0);
+            }
+        }
+        c.qcuts = vec![];
+        let md = gen_md(r, false);
+        let items: Vec<Item> = if c.resp_streaming() {
+            let mut ms: Vec<Item> = (0..pos).map(|_| Item::Ok(small(r))).collect();
+            ms.push(Item::Ok(big));
+            ms.push(Item::Ok(small(r)));
+            with_pending_items(r, ms)
+        } else {
+            vec![Item::Ok(big)]
+        };
+        let plens: Vec<usize> = items.iter().filter_map(|i| if let Item::Ok(m) = i { Some(5 + m.len()) } else { None }).collect();
+        c.handler = Handler::Ok(md, items);
+        c.pcuts = gen_cuts(r, &plens);
+        c.ppend = gen_pend(r, c.pcuts.len());
+        if which == 2 {
+            c.sv.max_enc = Some(l);
+        } else {
+            c.cl.max_dec = Some(l);
+        }
+    }
+    c.sv.via_apply = r.chance(1, 2);
+    c
+}
+pub fn limit_kind(which: u8, shape: u8) -> &'static str {
+    match which {
+        0 => "limit.server_max_decoding",
+        1 => "limit.client_max_encoding",
+        2 if shape <= 1 => "limit.unary_merge",
+        2 => "limit.server_max_encoding",
+        _ => "limit.client_max_decoding",
+    }
+}
+fn limit_cases(out: &mut Out, r: &mut Rng, thorough: bool) {
+    for which in 0..4u8 {
+        for &l in &[0usize, 1, 5, 100] {
+            let lens: Vec<usize> = if l == 0 { vec![0, 1] } else { vec![l - 1, l, l + 1] };
+            for &len in &lens {
+                for shape in 0..4u8 {
+                    for pos in 0..(if thorough { 3 } else { 2 }) {
+                        let streaming = if which <= 1 { shape == 1 || shape == 3 } else { shape >= 2 };
+                        if !streaming && pos > 0 {
+                            continue;
+                        }
+                        let c = gen_limit_case(r, shape, which, l, len, pos);
+                        run_case(out, limit_kind(which, shape), &c);
+                    }
+                }
+            }
+        }
+    }
+    // both limits of both sides at once, set through apply_max_message_size_config on the server
+    for _ in 0..(if thorough { 200 } else { 30 }) {
+        let shape = r.below(4) as u8;
+        let mut c = gen_case(r, shape, 3, None, false, false);
+        let ls = [3usize, 5, 20, 100];
+        c.cl.max_enc = Some(*r.pick(&ls));
+        c.cl.max_dec = Some(*r.pick(&ls));
+        c.sv.max_enc = Some(*r.pick(&ls));
+        c.sv.max_dec = Some(*r.pick(&ls));
+        c.sv.via_apply = true;
+        run_case(out, "limit.all_four", &c);
+    }
+}
+// ---- the handler answers before it has read its request stream (audit M21)
+pub fn gen_interleave_case(r: &mut Rng, shape: u8, err: bool) -> CallCase {
+    let k = r.below(4) as usize;
+    let e = if err { Some((r.below(3) as usize, r.range(1, 16) as u32)) } else { None };
+    let early = err && shape == 1 || (err && r.chance(1, 2));
+    let mut c = gen_case(r, shape, k, e, early, false);
+    let n = r.range(1, 4) as usize;
+    let ms: Vec<Item> = (0..n).map(|_| Item::Ok(gen_payload(r))).collect();
+    let qlens: Vec<usize> = ms.iter().filter_map(|i| if let Item::Ok(m) = i { Some(5 + m.len()) } else { None }).collect();
+    c.req = with_pending_items(r, ms);
+    c.qcuts = gen_cuts(r, &qlens);
+    c.qpend = gen_pend(r, c.qcuts.len());
+    c.reads = Some(r.below(n as u64 + 1) as usize);
+    c
+}
+// ---- compression configured (one encoding per case)
+pub fn gen_compress_case(r: &mut Rng, shape: u8) -> CallCase {
+    let k = r.below(4) as usize;
+    let e = if r.chance(1, 3) { Some((r.below(4) as usize, r.range(1, 16) as u32)) } else { None };
+    let mut c = gen_case(r, shape, k, e, false, false);
+    // keep the names the negotiation reads out of the user metadata
+    let clean = |md: &mut Md| md.retain(|(k, _)| !PROTOCOL.contains(&k.as_str()));
+    clean(&mut c.md);
+    if let Handler::Ok(md, _) = &mut c.handler {
+        clean(md);
+    }
+    let enc = *r.pick(&ENCS);
+    match r.below(3) {
+        0 => {
+            // both directions
+            c.cl.send = Some(enc);
+            c.cl.accept = vec![enc];
+            c.sv.accept = vec![enc];
+            c.sv.send_set = vec![enc];
+        }
+        1 => {
+            // request only
+            c.cl.send = Some(enc);
+            c.sv.accept = vec![enc];
+        }
+        _ => {
+            // response only; the server may send more than the client accepts
+            c.cl.accept = vec![enc];
+            c.sv.send_set = ENCS.to_vec();
+        }
+    }
+    // compressed frames have other lengths: cut anywhere
+    let total = 64;
+    c.qcuts = (0..r.below(4)).map(|_| r.range(1, total) as usize).collect();
+    c.pcuts = (0..r.below(4)).map(|_| r.range(1, total) as usize).collect();
+    c.qpend = gen_pend(r, c.qcuts.len());
+    c.ppend = gen_pend(r, c.pcuts.len());
+    c
 }
 
 fn corpus(out: &mut Out) {
@@ -1001,7 +1395,7 @@ fn corpus(out: &mut Out) {
     let kv = |k: &str, v: &str| (k.to_string(), v.as_bytes().to_vec());
     for shape in 0..4u8 {
         let req = if shape == 1 || shape == 3 { vec![Item::Ok(vec![1]), Item::Pending, Item::Ok(vec![]), Item::Ok(vec![2, 3])] } else { vec![Item::Ok(vec![1, 2, 3])] };
-        let base = CallCase { shape, md: vec![kv("x-a", "1"), kv("x-a", "2"), kv("te", "x"), ("x-p-bin".into(), vec![0, 255, 7])], req, qcuts: vec![2, 3, 1], qpend: vec![1, 0, 1], handler: Handler::Ok(vec![kv("x-r", "v"), kv("grpc-status", "7")], vec![Item::Ok(vec![9, 9])]), pcuts: vec![1, 4], ppend: vec![0, 1, 1] };
+        let base = CallCase { cl: SideCfg::default(), sv: SideCfg::default(), reads: None, shape, md: vec![kv("x-a", "1"), kv("x-a", "2"), kv("te", "x"), ("x-p-bin".into(), vec![0, 255, 7])], req, qcuts: vec![2, 3, 1], qpend: vec![1, 0, 1], handler: Handler::Ok(vec![kv("x-r", "v"), kv("grpc-status", "7")], vec![Item::Ok(vec![9, 9])]), pcuts: vec![1, 4], ppend: vec![0, 1, 1] };
         run_case(out, "corpus.edge", &base);
         // error before anything (trailers-only), with metadata, details and a message that needs escaping
         let e = StSpec { code: 5, msg: "not found: 100% \u{e9}\n".into(), details: vec![0, 255, 7, 9], md: vec![kv("x-e", "why"), kv("x-e", "again"), kv("content-type", "text/x"), ("x-d-bin".into(), vec![1, 2, 3])] };
@@ -1041,6 +1435,13 @@ fn main() {
         } else {
             run_case(&mut out, &kind, &c);
         }
+    } else if std::env::args().any(|x| x == "--limits-only") {
+        // C06: the configured limits followed through client::Grpc / server::Grpc
+        limit_cases(&mut out, &mut r, a.thorough);
+        if a.thorough {
+            limit_cases(&mut out, &mut r, true);
+        }
+        h2run::run_limits(&mut out, &mut r, a.thorough);
     } else {
         corpus(&mut out);
         // 4 shapes x k in 0..5 x all 17 codes x error position (early, before first, mid, after last, none)
@@ -1085,13 +1486,21 @@ fn main() {
             let early = r.chance(1, 5);
             run_case(&mut out, "edge.protocol_md", &gen_case(&mut r, shape, k, err, early, true));
         }
-        if a.thorough {
-            h2run::run_all(&mut out, &mut r);
+        limit_cases(&mut out, &mut r, a.thorough);
+        for _ in 0..(if a.thorough { 1200 } else { 120 }) {
+            let shape = if r.chance(1, 2) { 1 } else { 3 };
+            let err = r.chance(1, 2);
+            run_case(&mut out, "interleave.early_answer", &gen_interleave_case(&mut r, shape, err));
         }
+        for _ in 0..(if a.thorough { 1500 } else { 150 }) {
+            let shape = r.below(4) as u8;
+            run_case(&mut out, "side.compress", &gen_compress_case(&mut r, shape));
+        }
+        h2run::run_all(&mut out, &mut r, a.thorough);
     }
     out.finish(
         IMPORTS,
-        "call.*: real client::Grpc over an in-process transport over real server::Grpc with a scripted handler; 4 shapes x 0..5 response messages x all 17 codes x error position (handler Err before any response = trailers-only; Err item before the first message, mid-stream, after the last; none) x status messages (controls, %, UTF-8 up to U+10FFFF) / details / metadata (repeated keys, -bin values, reserved names) x request streams of 0..4 messages with metadata; request and response DATA re-cut (every prefix byte alone, fixed sizes 1..16, random, empty DATA frames) with scripted Pending on both bodies and both source streams. edge.*: protocol header names (grpc-encoding, grpc-timeout, grpc-status-details-bin) in user metadata and OK used as an error code: outside the oracle's domain, model agreement only. h2.* (thorough): the same scripts over hyper/h2 on tokio::io::duplex(256) - final observables. Non-trivial = an error outcome, or >= 2 response items, or a re-cut body. Distinct = distinct (kind, model expression).",
+        "limit.*: max_decoding_message_size / max_encoding_message_size set on client::Grpc and server::Grpc (directly and through apply_max_message_size_config), L in {0,1,5,100}, payloads L-1/L/L+1, position 0..2, four shapes; limit.unary_merge reaches the unary client's error-merge branch. interleave.*: the handler of a streaming-request shape answers (Ok or Err) after reading j < n request messages. side.compress: gzip/deflate/zstd configured in both / one direction. The in-process transport honours Body::is_end_stream() like hyper. h2.* (a subset in the quick tier): real hyper HTTP/2 connections. call.*: real client::Grpc over an in-process transport over real server::Grpc with a scripted handler; 4 shapes x 0..5 response messages x all 17 codes x error position (handler Err before any response = trailers-only; Err item before the first message, mid-stream, after the last; none) x status messages (controls, %, UTF-8 up to U+10FFFF) / details / metadata (repeated keys, -bin values, reserved names) x request streams of 0..4 messages with metadata; request and response DATA re-cut (every prefix byte alone, fixed sizes 1..16, random, empty DATA frames) with scripted Pending on both bodies and both source streams. edge.*: protocol header names (grpc-encoding, grpc-timeout, grpc-status-details-bin) in user metadata and OK used as an error code: outside the oracle's domain, model agreement only. h2.* (thorough): the same scripts over hyper/h2 on tokio::io::duplex(256) - final observables. Non-trivial = an error outcome, or >= 2 response items, or a re-cut body. Distinct = distinct (kind, model expression).",
         json!({"exhaustive": false}),
     );
 }
